@@ -1,6 +1,7 @@
 """Human-written texts of MANIFEST.json, per property."""
 
 ENGINES = [
+    dict(name="sched (E3) + x86mini (E4)", path="sched/sched.go", serves_properties=["C08", "C09"], kind_free_text="controlled cooperative scheduler for real goroutines (schedule points at every atomic operation and interpreted memory instruction), DFS with iterative preemption bounding and an unbounded state-pruned pass, generic spin detection, vector-clock happens-before race monitor; interpreter for the Plan 9 amd64 subset of spinlock_amd64.s parsed from the current .s text"),
     dict(name="choice (E1)", path="rt/choice.go", serves_properties=["C01", "C02", "C03", "C05", "C10", "C14", "C20"], kind_free_text="deviation-bounded choice-tree explorer: replays a prefix of recorded answers, default answer afterwards, recursion on every alternative within the deviation bound; divergence while replaying is a hard error"),
     dict(name="graph (E2)", path="rt/graph.go", serves_properties=["C01", "C03", "C04", "C06", "C07", "C13", "C16", "C17", "C18"], kind_free_text="explicit-state breadth-first search; every transition calls the real operation on the real data structure; canonical state hashing; invariant / reference-model comparison in every state"),
     dict(name="vcheck driver", path="vcheck", serves_properties=[], kind_free_text="overlay generation from /repo's working tree, go test -c -tags verif, sharded worker subprocesses, result merge, known-findings, evidence"),
@@ -11,6 +12,20 @@ NOTES = "All checks are bounded-exhaustive model checking of the real Go code (h
 NOT_APPLICABLE = {}
 
 TEXT = {
+    "C08": dict(
+        engine="sched (E3) + x86mini (E4)",
+        design_ref="DESIGN.md §3 C08",
+        technique="stateless model checking of the real spinlock (Go methods on an atomic shim + the real assembly text run by an interpreter) under a controlled scheduler: all schedules up to a preemption bound plus an unbounded state-pruned pass, with a happens-before race monitor",
+        text="13 (thorough 19) thread configurations of 2-3 (4) threads running acquire/try-acquire/release programs, with yieldFn nil and set, are explored exhaustively for preemption bounds 0..3 (4) and without bound under state pruning. Oracles on every execution: at most one task inside the lock at every step; Acquire/TryToAcquire(true) never return while another task is between acquire and release; TryToAcquire(false) only while someone holds the lock and leaves the word at 1; the counter updated inside the lock equals the number of completed critical sections and its accesses are ordered by happens-before (visibility); no deadlock / livelock (spin detection + step horizon); the lock is free at the end. The interpreter is bound to the hardware by running all 1092 sequential traces of length <=6 on both the interpreted and the assembled routine against the sequential lock model.",
+        note="Sequentially consistent exploration (see DESIGN.md §4 for the TSO argument); 2-4 threads x <=3 operations stand for 'any number of tasks'; the 16-thread free-running run on the real assembly is a sampled supplement, never the verdict.",
+    ),
+    "C09": dict(
+        engine="sched (E3) + x86mini (E4)",
+        design_ref="DESIGN.md §3 C09",
+        technique="stateless model checking of the real AllocFrame/FreeFrame over the instrumented spinlock: preemption-bounded DFS + unbounded state-pruned pass, ownership table, brute-force linearizability, happens-before monitor on go/ast-inserted field hooks",
+        text="11 (thorough 17) configurations - pools of 1, 2, 1+2 and 65 frames with 63/64 pre-held (collisions inside one bitmap word and across the word boundary), 2-4 (5) callers with <=3 (4) operations from {alloc, free own newest/oldest, racing free of one shared frame, free of an unmanaged frame} - are explored for preemption bounds 0..2 and without bound. Oracles: no frame handed to two holders; call/return history linearizable against the sequential allocator model (brute force over the <=9 calls); reservedPages / pool free counts equal initial + allocations - frees once all callers stopped; a final sequential drain recovers exactly the un-held frames; lock free at the end; no deadlock; no happens-before race on any allocator field that AllocFrame/FreeFrame assign.",
+        note="Pools are built by the real pmm.Init from a tiny multiboot map; 'up to 16 callers' is covered for 2-5 callers.",
+    ),
     "C04": dict(
         engine="graph (E2) + software MMU",
         design_ref="DESIGN.md §3 C04",
